@@ -8,17 +8,28 @@ import (
 )
 
 func genXCase(t *rapid.T, free bool) XCase {
-	c := XCase{Cap: rapid.IntRange(1, 3).Draw(t, "cap"), NKeys: rapid.IntRange(1, 3).Draw(t, "nkeys")}
+	c := XCase{Cap: rapid.IntRange(1, 4).Draw(t, "cap"), NKeys: rapid.IntRange(1, 6).Draw(t, "nkeys")}
 	nw := rapid.IntRange(2, 4).Draw(t, "workers")
 	maxOps := 6
 	if free {
 		maxOps = 10
 	}
+	// one case in four: a long recency history on one worker (hits, removals of the most recent key, evictions) with the
+	// other workers interfering a little
+	long := rapid.IntRange(0, 3).Draw(t, "longWorker") == 0
 	for i := 0; i < nw; i++ {
 		n := rapid.IntRange(1, maxOps).Draw(t, "nops")
+		if long && i == 0 {
+			n = rapid.IntRange(10, 40).Draw(t, "longOps")
+		} else if long {
+			n = rapid.IntRange(0, 2).Draw(t, "fewOps")
+		}
 		var p []XOp
 		for j := 0; j < n; j++ {
 			k := rapid.SampledFrom([]string{"g", "g", "g", "g", "g", "r", "r", "c"}).Draw(t, "kind")
+			if long && i == 0 {
+				k = rapid.SampledFrom([]string{"g", "g", "g", "g", "g", "g", "g", "r", "r", "r", "c"}).Draw(t, "kindLong")
+			}
 			p = append(p, XOp{K: k, Key: rapid.IntRange(0, c.NKeys-1).Draw(t, "key")})
 		}
 		c.Programs = append(c.Programs, p)
